@@ -449,6 +449,7 @@ fn run_v2s(seed: u64) -> Result<u64, Fail> {
     let mut rng = Rng(seed * 15485863 + 3);
     let params = String::new();
     let (tx, rx) = new_nocopy_stream::<Vec<S>>();
+    let mut tx = Some(tx);
     let (mut b, out) = VecToStream::new(rx);
     let (mut got, mut got_tags) = (vec![], vec![]);
     let mut want: Vec<u64> = vec![];
@@ -466,8 +467,11 @@ fn run_v2s(seed: u64) -> Result<u64, Fail> {
                     want_tags.push((want.len() + n - 1, "VecToStream::end".into(), tv(&TagValue::U64(n as u64))));
                 }
                 want.extend(pk.iter().map(|x| x.v()));
-                tx.push(pk, &[]);
+                tx.as_ref().unwrap().push(pk, &[]);
             }
+        } else if tx.is_some() {
+            // the upstream block is done and goes away
+            tx = None;
         }
         for _ in 0..(1 + rng.below(3)) {
             let before = (0usize, readable(&out));
@@ -485,6 +489,18 @@ fn run_v2s(seed: u64) -> Result<u64, Fail> {
                 return Err(Fail { target: target.into(), prop: "C15", label: "C15.v2s.work-does-not-panic".into(), what: "work() panicked".into(), seed, params });
             }
             let _ = (before, after());
+            // C09: a runner asks eof() after a wait verdict and retires the block when it says yes; it must not say yes
+            // while it still owes data it has taken from its input
+            if tx.is_none() && matches!(r, Ok("Wait")) {
+                use rustradio::block::BlockEOF;
+                if b.eof() {
+                    let emitted = got.len() + readable(&out);
+                    if emitted < want.len() {
+                        return Err(Fail { target: target.into(), prop: "C09", label: "C09.v2s.eof-only-when-everything-is-out".into(),
+                            what: format!("upstream gone, work() reported a wait, eof() says true, but only {} of {} samples have been emitted", emitted, want.len()), seed, params });
+                    }
+                }
+            }
         }
         let j = if s >= 45 { CAP } else { match style { 0 => CAP, 1 => rng.pick(&[0, 1, 2, 10]), _ => rng.pick(&[0, 0, 400, 1000]) } };
         drain(&out, j, &mut got, &mut got_tags);
